@@ -31,6 +31,11 @@ def demo_pkgs(d, meta, wt):
     cands += re.findall(r"\./([\w/\-]+?)/?(?:\s|$|\))", meta.get("demo", ""))
     cands += re.findall(r"<repo>/([\w/\-]+?)/?(?:\s|$)", meta.get("demo", ""))
     cands += re.findall(r"\(in `?([\w/\-]+?)/?`?\)", meta.get("demo", ""))
+    for root, _, files in os.walk(d):
+        rel = os.path.relpath(root, d)
+        for f in sorted(files):
+            if f.endswith("_test.go") and rel != ".":
+                out.append((os.path.join(rel, f), rel))   # the demo sits in a mirror of its package directory
     for f in sorted(os.listdir(d)):
         if not f.endswith("_test.go"):
             continue
@@ -78,12 +83,12 @@ def confirm(d):
             ok = True
             outs = []
             for f, p in demos:
-                rc, o = sh("CGO_ENABLED=%s go test %s-count=1 -run 'TestSeed|Seed' ./%s/" % ("1" if race else "0", race, p), wt)
+                rc, o = sh("CGO_ENABLED=%s go test -vet=off %s-count=1 -run 'TestSeed|Seed' ./%s/" % ("1" if race else "0", race, p), wt)
                 outs.append(o[-400:])
                 ok = ok and rc == 0
             return ok, outs
         for f, p in demos:
-            shutil.copy(os.path.join(d, f), os.path.join(wt, p, f))
+            shutil.copy(os.path.join(d, f), os.path.join(wt, p, os.path.basename(f)))
         ok, o = run_demo()
         res["demo_passes_unchanged"] = ok
         if not ok:
@@ -100,7 +105,7 @@ def confirm(d):
         res["builds"] = rc == 0
         # existing tests, demo files moved away
         for f, p in demos:
-            os.remove(os.path.join(wt, p, f))
+            os.remove(os.path.join(wt, p, os.path.basename(f)))
         fails = []
         for p in pkgs:
             rc, o = sh("go test -count=1 ./%s/" % p, wt)
@@ -118,7 +123,7 @@ def confirm(d):
         if fails:
             res["existing_test_failures"] = fails
         for f, p in demos:
-            shutil.copy(os.path.join(d, f), os.path.join(wt, p, f))
+            shutil.copy(os.path.join(d, f), os.path.join(wt, p, os.path.basename(f)))
         ok, o = run_demo()
         res["demo_fails_with_patch"] = not ok
         return res
